@@ -749,6 +749,19 @@ STRBYTE_EXEMPT = {
 PROPERTIES["C09"]["rules"] += [("STRBYTE", lambda ctx: rule_strbyte(ctx.lib, STRBYTE_EXEMPT))]
 PROPERTIES["C09"]["explanation"] += " (STRBYTE) No FFI function applies a byte-offset string API (len, get, range indexing, find, split_at, …) to a program string: lengths and positions exchanged with Numbat code are characters, which the library's position-stepping search functions rely on."
 
+from pendeq import rule_pendeq  # noqa: E402
+from sugarrules import rule_negsugar, rule_sugarscope  # noqa: E402
+from typeparens import rule_typeparens  # noqa: E402
+
+PROPERTIES["C15"]["rules"] += [("TYPEPARENS", lambda ctx: rule_typeparens(ctx.lib)), ("NEGSUGAR", lambda ctx: rule_negsugar(ctx.lib))]
+PROPERTIES["C15"]["explanation"] += " (TYPEPARENS) For every operand position of ast::TypeExpression, the variants printed bare (abstract evaluation of the printer arm, through ast::with_parens) are among those the dimension-expression parser level supplying that operand can return without parentheses (one semantic exemption: products regroup to the same dimension). (NEGSUGAR) The Negate arm of the typed printer singles out the conversion calls the prefix transformer produces, because the text `-(x °C)` is always read as from_celsius(-x)."
+
+PROPERTIES["C10"]["rules"] += [("PENDEQ", lambda ctx: rule_pendeq(ctx.lib))]
+PROPERTIES["C10"]["explanation"] += " (PENDEQ) Parser::match_exact is interpreted abstractly over (pending `=` from a split `>=`, wanted kind is `=`, next token matches): with a pending `=` nothing but `=` matches and nothing is consumed; the flag does not outlive a failed statement."
+
+PROPERTIES["C09"]["rules"] += [("SUGARSCOPE", lambda ctx: rule_sugarscope(ctx.lib))]
+PROPERTIES["C09"]["explanation"] += " (SUGARSCOPE) Both by-name temperature rewrites in the prefix transformer also consult the transformer's scope tables for the identifier, so a parameter called `celsius` stays a parameter."
+
 NOT_APPLICABLE = {
     "C03": "numerical agreement of conversion factors over 500 units is a statement about run-time values; no structural clause is a necessary condition that is not already covered under C04/C11/C12 (static analysis cannot bound the arithmetic)",
     "C14": "a statement about the decimal rendering of every f64 under every format setting; the code delegates to pretty_dtoa/num_format and no structural clause of Number::pretty_print_with_dtoa_config can be decided without evaluating it",
